@@ -91,6 +91,9 @@ WATCHER = {'extra': 'adj-rib-in false;', 'api_receive': ['parsed', 'notification
 
 def fixed_cases() -> list:
     out = [{'fault': f, 'state': s, 'pre': [], 'grid': i} for i, (f, s, _) in enumerate(GRID)]
+    # the error arrives while exabgp's send buffer is full (a large batch, a peer that stopped reading): the NOTIFICATION is
+    # written all the same once the peer reads again
+    out += [{'fault': f, 'state': s, 'pre': [], 'grid': i, 'blocked': True} for i, (f, s, _) in enumerate(GRID) if s == 'ESTABLISHED-BATCH' and f[0] in ('fault', 'open', 'teardown') and NONE_AND_UP not in _EXPECTED[(repr(list(f)), s)]][:12]
     out += [{'fault': f, 'state': s, 'pre': [], 'grid': i, 'neighbor': 'watcher'} for i, (f, s, _) in enumerate(GRID) if s == 'ESTABLISHED' and f[0] == 'fault' and (f[1] in sc.UPDATE_FAULTS or f[1] in sc.UPDATE_SOFT_FAULTS)]
     # the OPEN faults once more under a local hold time of 0 (legal: no keepalives) - what is refused must not depend on it
     out += [{'fault': f, 'state': s, 'pre': [], 'grid': i, 'local_hold': 0} for i, (f, s, _) in enumerate(GRID) if f[0] == 'open' and s == 'OPENSENT']
@@ -129,6 +132,7 @@ def check(case: dict) -> dict:
             if not hn.reload_ok:
                 raise RuntimeError(f'configuration refused: {hn.reactor.configuration.error}')
             runner = sc.Runner(hn)
+            hn.small_buffers = bool(case.get('blocked'))
             hn.start()
             await hn.sleep(0.2)
             r = runner.alive()
@@ -146,6 +150,10 @@ def check(case: dict) -> dict:
                 if state == 'ESTABLISHED':
                     await hn.sleep(0.5)
             fsm_before = hn.peer(0).fsm.name()
+            if case.get('blocked'):
+                # the remote stops reading in the middle of the batch: a moment later exabgp's writes do not go through any more
+                r.paused = True
+                await hn.sleep(0.5)
             await runner.run(case['pre'])
             peer = hn.peer(0)
             res['reached'] = reached and r.closed_at is None
@@ -164,6 +172,9 @@ def check(case: dict) -> dict:
             else:
                 await runner.run([case['fault']])
             timer_case = case['fault'][0] in ('partial', 'wait')
+            if case.get('blocked'):
+                await hn.sleep(1.0)
+                r.paused = False
             await r.wait_for(lambda: r.closed_at is not None, timeout=45.0 if timer_case else 6.0)
             await hn.sleep(0.2)
             res['after'] = [(t, ty, body) for t, ty, body in r.messages[n_before:]]
@@ -215,6 +226,8 @@ def check(case: dict) -> dict:
         classes.append(f'local-hold-time:{case["local_hold"]}')
     if case.get('neighbor'):
         classes.append(f'neighbor:{case["neighbor"]}')
+    if case.get('blocked'):
+        classes.append('send-buffer-full-when-the-error-arrives')
     return {'nontrivial': True, 'classes': classes}
 
 
